@@ -205,7 +205,7 @@ def _run_vp(cfg, rec):
                 items.append(("residual is orthogonal to every matrix column (normal equations: clp minimises |data - matrix clp|)",
                               core.cross_eq(z3.Sum([A[i][j] * r[i] for i in range(m)]), z3.RealVal(0)), "vp:not-orthogonal"))
         rec.check_all(ctx, items, wit)
-        rec.sample({"config": cfg["name"], "lapack_calls": log, "clp0": str(zreal(clp[0]))[:120]})
+        rec.want_sample() and rec.sample({"config": cfg["name"], "lapack_calls": log, "clp0": str(zreal(clp[0]))[:120]})
     if len(rec.validations) < 4:
         rec.validations.append((cfg["name"], {"__item": cfg}, {"ok": True}))
 
@@ -258,7 +258,7 @@ def _run_nnls(cfg, rec):
                           core.cross_eq(zreal(res[i]), zreal(dat[i]) - z3.Sum([zreal(mat[i, j]) * zreal(xs[j]) for j in range(n)])),
                           "nnls:residual-identity"))
         rec.check_all(ctx, items, wit)
-        rec.sample({"config": cfg["name"], "residual0": str(zreal(res[0]))[:120]})
+        rec.want_sample() and rec.sample({"config": cfg["name"], "residual0": str(zreal(res[0]))[:120]})
     if len(rec.validations) < 4:
         rec.validations.append((cfg["name"], {"__item": cfg}, {"ok": True}))
 
@@ -301,7 +301,7 @@ def _run_dispatch(cfg, rec):
             items = [("an unsupported residual function is rejected before anything is evaluated",
                       z3.BoolVal(isinstance(exc, ep.UnsupportedResidualFunctionError) and not called), "dispatch:unknown-not-rejected")]
         rec.check_all(ctx, items, wit)
-        rec.sample({"residual_function": name, "invoked": [f.__name__ for f in called], "raised": type(exc).__name__ if exc else None})
+        rec.want_sample() and rec.sample({"residual_function": name, "invoked": [f.__name__ for f in called], "raised": type(exc).__name__ if exc else None})
 
 
 # ------------------------------------------------------------------------------------------------ float side
